@@ -157,6 +157,7 @@ return:迭代是否成功
 */
 bool buffergroup::turn_iter()
 {
+  WENCRY_VERIF_POINT(WV_TURN_ITER, turn);
   if (!bufferctrl::haslive())
     return false;
   do
@@ -171,13 +172,19 @@ return:表项地址，若缓冲区已经读取完毕返回NULL
 */
 u8_t *buffergroup::require_buffer_entry(const u8_t id)
 {
+  WENCRY_VERIF_POINT(WV_GET_BEGIN, id);
   u8_t *result = buflst[id].get_entry();
+  WENCRY_VERIF_POINT(result ? WV_GET_SOME : WV_GET_NULL, id);
   if (result == NULL)
   {
     ctrl[id].set_update();
     ctrl[id].wait_ready();
     if (ctrl[id].cmpstate(READY))
+    {
+      WENCRY_VERIF_POINT(WV_GET_BEGIN, id);
       result = buflst[id].get_entry();
+      WENCRY_VERIF_POINT(result ? WV_GET_SOME : WV_GET_NULL, id);
+    }
   }
   return result;
 }
@@ -190,11 +197,17 @@ void buffergroup::buffer_update(const std::function<void(std::string, size_t)> &
   loadstate_t loadstate = NODATA;
   if (ctrl[turn].cmpstate(UPDATING))
   {
+    WENCRY_VERIF_POINT(WV_EXPORT_BEGIN, turn);
     buflst[turn].export_buffer(fout, ispadding);
+    WENCRY_VERIF_POINT(WV_EXPORT_END, turn);
     printload("Tid " + std::to_string(turn), buflst[turn].get_size());
   }
   if (!over)
+  {
+    WENCRY_VERIF_POINT(WV_LOAD_BEGIN, turn);
     loadstate = buflst[turn].load_buffer(fin, ispadding);
+    WENCRY_VERIF_POINT(WV_LOAD_END, turn);
+  }
   over = loadstate != FULL;
   ctrl[turn].set_ready(loadstate != NODATA);
 }
